@@ -40,6 +40,8 @@ m("c12-assigned-mode-from-spare", S + "standard_aircraft_position_report.rs", " 
 m("c02-body-bounded-run", SS, "peek(take_until(\"*\"))", "peek(nom::bytes::complete::take_while_m_n(0, 384, |c| c != b'*'))", ["C02"])
 m("c04-bool-inverted", S + "parsers.rs", "        0 => false,\n        1 => true,\n        _ => unreachable!(),", "        0 => true,\n        1 => false,\n        _ => unreachable!(),", ["C04"])
 m("c04-bool-eq-zero", S + "parsers.rs", "    match data {\n        0 => false,\n        1 => true,\n        _ => unreachable!(),\n    }", "    data == 0", ["C04"])
+n("n-c13-sixbit-lookup-table", S + "parsers.rs", "        0..=31 => Ok(data + 64),\n        32..=63 => Ok(data),\n        _ => Err(format!", "        0..=63 => Ok(b\"@ABCDEFGHIJKLMNOPQRSTUVWXYZ[\\\\]^_ !\\\"#$%&'()*+,-./0123456789:;<=>?\"[data as usize]),\n        _ => Err(format!", ["C13", "C01", "C18"])
+m("c13-sixbit-lookup-table-typo", S + "parsers.rs", "        0..=31 => Ok(data + 64),\n        32..=63 => Ok(data),\n        _ => Err(format!", "        0..=63 => Ok(b\"@ABCDEFGHIJKLMNOPQRSTUVWXYZ[\\\\]^_ !\\\"#$%&'()*+,-./0123456789;:<=>?\"[data as usize]),\n        _ => Err(format!", ["C13"])
 n("n-c04-bool-ne-zero", S + "parsers.rs", "    match data {\n        0 => false,\n        1 => true,\n        _ => unreachable!(),\n    }", "    data != 0", ["C04", "C01", "C18"])
 n("n-c11-year-if", S + "parsers.rs", "|year| match year {\n        0 => None,\n        _ => Some(year),\n    }", "|year| if year == 0 { None } else { Some(year) }", ["C11", "C04", "C01"])
 n("n-c10-sext-by-shifts", S + "parsers.rs", "        match (num << (32 - len)).leading_zeros() {\n            0 => num | mask,\n            _ => !mask & num,\n        },", "        { let _ = mask; if len == 0 { 0 } else { (num << (32 - len)) >> (32 - len) } },", ["C10", "C04", "C11", "C01"])
